@@ -20,17 +20,29 @@ RULE = ("Exhaustive part: every integer triple with max|index| <= 6 (thorough 10
         "near-miss and random ASCII strings, family constructors with non-coincident parameters (ratios >= 1.15, angles "
         ">= 5 deg from 90 and >= 0.5 deg apart).  Non-trivial: a triple with >= 2 non-zero indices of mixed sign in a "
         "non-orthogonal cell (cell-less clauses: mixed-sign triple, and setting != 'p' for centring / gcd > 1 for reduce); "
-        "strings: negative index or a fraction; family: rotated or non-orthogonal family; fuzz: string outside the strict grammar.")
+        "strings: negative index or a fraction; family: rotated or non-orthogonal family; fuzz: string outside the strict grammar. "
+        "Input forms of every index block: nested list / tuple, int64, int32, integer-valued float64, non-contiguous view, Fortran "
+        "order, read-only array, list of numpy integer scalars (a conversion must not write into its input).  History part: "
+        "box_history = ONE Box object (half held by a System) built by any constructor route, queried, changed in place by every "
+        "public route (vects setter, set(vects|avect,bvect,cvect|a,b,c,..|lx,..|xlo,..), model(), System.box_set with/without "
+        "scale, set(), origin only), its handed-in/handed-out arrays overwritten, deep-copied, replaced by a new object, and "
+        "queried again for the same planes / vectors / family; non-trivial: a plane or vector asked again after the cell of that "
+        "object changed.  call_history = 2-5 complete cases of the clauses random/strings/family in one sequence, every call "
+        "judged when made and again when the sequence is repeated in another order; non-trivial as for the member cases.")
 ASSUMPTIONS = ["numpy linear algebra and numpy's text-to-float conversion are correct",
                "cells are right-handed (det > 0); the sense of the plane normal is only claimed for those",
                "R-centring: which of t1/t2 is 'obverse' is not documented, only that each is one of the two and that they differ",
                "for strings outside the documented grammar only 'clean refusal or the numbers shown' is demanded",
+               "box_history: Box.model() of a second Box is trusted to write the vectors that Box holds (used only as input of the model() route)",
+               "box_history: Box.set(a=..) may build the vectors with other roundings than my cell_matrix: 32 eps relative allowed on that route",
                "atheris is not importable in this restore (/verif/.deps absent): the byte-level target is replaced by "
                "Hypothesis text + mutated grammar strings (clause strings_fuzz)"]
 LEVEL_TEXT = ("All integer index triples up to |index| 6 (thorough 10) in 12 (40) cells of every crystal family are enumerated "
               "for the plane normal, zone law, 3<->4 index, centring and reduce clauses; random search covers larger indices, "
-              "array shapes, random cells, index strings and family identification.")
-TECHNIQUE = "exhaustive enumeration + Hypothesis; own reciprocal basis / zone law / a1,a2,a3,c basis / centring sets / gcd / regex grammar"
+              "array shapes and input forms, random cells, index strings and family identification; histories on one Box object "
+              "(in-place changes through every public route between repeated queries) and sequences of module-level calls are searched randomly.")
+TECHNIQUE = ("exhaustive enumeration + Hypothesis (single calls, object histories against an own record of the cell, call sequences); "
+             "own reciprocal basis / zone law / a1,a2,a3,c basis / centring sets / gcd / regex grammar")
 WALL = {'quick': 75, 'thorough': 600}
 
 EPS = ref.EPS
@@ -58,9 +70,9 @@ def _tolN(cond, nmax, vfloor=0.0):
     return 2 * vfloor * cond + 256 * EPS * max(1, nmax) * cond ** 2
 
 
-def _tolV(V, idxabs_sum):
+def _tolV(V, idxabs_sum, vpert=0.0):
     """bound on |idx.vects - idx.V| per component"""
-    return (_vfloor(V) + 8 * EPS) * float(np.abs(V).max()) * max(1.0, float(idxabs_sum))
+    return (_vfloor(V) + vpert + 8 * EPS) * float(np.abs(V).max()) * max(1.0, float(idxabs_sum))
 
 
 def _has_mixed(t):
@@ -72,12 +84,43 @@ def _branch(t):
     return 'br_' + ''.join('n' if x else '0' for x in t[:3])
 
 
+def _tuplify(x):
+    return tuple(_tuplify(y) for y in x) if isinstance(x, (list, tuple)) else x
+
+
+def _npscalars(x):
+    return [_npscalars(y) for y in x] if isinstance(x, (list, tuple)) else np.int64(x)
+
+
 def _arg(idx, form):
+    """the integer index block idx (nested list) in one of the documented array-like forms"""
     if form == 'list':
         return idx
     if form == 'float':
         return np.array(idx, dtype=float)
-    return np.array(idx, dtype=int)
+    if form == 'tuple':
+        return _tuplify(idx)
+    if form == 'npscalars':
+        return _npscalars(idx)
+    if form == 'i32':
+        return np.array(idx, dtype=np.int32)
+    a = np.array(idx, dtype=np.int64)
+    if form == 'nc':                                     # non-contiguous view: every other column of a wider array
+        big = np.full(a.shape[:-1] + (2 * a.shape[-1],), 99, dtype=np.int64)
+        big[..., ::2] = a
+        return big[..., ::2]
+    if form == 'fortran':
+        return np.asfortranarray(a)
+    if form == 'ro':
+        a.setflags(write=False)
+        return a
+    return a
+
+
+def _untouched(arg, idx, what):
+    """a conversion must not write into the caller's array"""
+    if isinstance(arg, np.ndarray):
+        require(bool(np.array_equal(arg, np.asarray(idx))), lambda: '%s changed its input array: %r -> %r' % (what, idx, arg.tolist()))
 
 
 def _shape_labels(case):
@@ -86,8 +129,10 @@ def _shape_labels(case):
 
 # ----------------------------------------------------------------------------- normal: shared judgement
 
-def _judge_normals(got, P, V, cond, what):
-    """got: atomman's normals for integer planes P (...,3) in the cell with rows V.  Returns (G, |G|)."""
+def _judge_normals(got, P, V, cond, what, vpert=0.0):
+    """got: atomman's normals for integer planes P (...,3) in the cell with rows V.  Returns (G, |G|).
+    vpert: relative bound on the difference between atomman's cell vectors and V that comes from building the cell by
+    another (equivalent) formula, e.g. Box.set(a=...) against my cell_matrix; 0 when the vectors themselves were passed."""
     P = np.asarray(P, dtype=np.int64)
     got = np.asarray(got)
     require(got.shape == P.shape[:-1] + (3,) and got.dtype.kind == 'f',
@@ -99,7 +144,7 @@ def _judge_normals(got, P, V, cond, what):
     exp = G / Gn[..., None]
     nrm = np.linalg.norm(got, axis=-1)
     require(float(np.abs(nrm - 1).max()) <= 1e-12, lambda: '%s: normal is not a unit vector (|n| = %r)' % (what, nrm.tolist()))
-    tol = _tolN(cond, int(np.abs(P).max()), _vfloor(V))
+    tol = _tolN(cond, int(np.abs(P).max()), _vfloor(V) + vpert)
     err = np.abs(got - exp).max(axis=-1)
     if float(err.max()) > tol:
         j = np.unravel_index(int(np.argmax(err)), err.shape)
@@ -108,7 +153,7 @@ def _judge_normals(got, P, V, cond, what):
     return G, Gn
 
 
-def _judge_zone(am_vec, got, P, UVW, V, Gn, cond, what):
+def _judge_zone(am_vec, got, P, UVW, V, Gn, cond, what, vpert=0.0):
     """the normal is perpendicular to lattice vector [uvw] exactly when hu+kv+lw = 0: n.(uvw.V) = (hu+kv+lw)/|g|"""
     P2 = np.asarray(P, dtype=np.int64).reshape(-1, 3)
     n2 = np.asarray(got).reshape(-1, 3)
@@ -116,12 +161,12 @@ def _judge_zone(am_vec, got, P, UVW, V, Gn, cond, what):
     UVW = np.asarray(UVW, dtype=np.int64)
     vec = np.asarray(am_vec)
     myvec = UVW.astype(float) @ V
-    require(vec.shape == myvec.shape and float(np.abs(vec - myvec).max()) <= _tolV(V, np.abs(UVW).sum(axis=-1).max()),
+    require(vec.shape == myvec.shape and float(np.abs(vec - myvec).max()) <= _tolV(V, np.abs(UVW).sum(axis=-1).max(), vpert),
             lambda: '%s: vector_crystal_to_cartesian(%r) = %r, expected uvw.vects = %r' % (what, UVW.tolist(), vec.tolist(), myvec.tolist()))
     Z = P2 @ UVW.T                                  # exact integers
     D = n2 @ vec.T
     vn = np.linalg.norm(myvec, axis=-1)
-    tol = (_tolN(cond, int(np.abs(P2).max()), _vfloor(V)) * 3 + (_vfloor(V) + 16 * EPS) * cond) * vn[None, :]
+    tol = (_tolN(cond, int(np.abs(P2).max()), _vfloor(V) + vpert) * 3 + (_vfloor(V) + vpert + 16 * EPS) * cond) * vn[None, :]
     expD = Z / g2[:, None]
     bad = np.abs(D - expD) > tol
     if bad.any():
@@ -180,12 +225,13 @@ def oracle_normal_exh(case):
 
 def _check_34(miller, T3, labels=None):
     """T3: int array (...,3).  Round trips and explicit formulas for the 3<->4 index maps."""
+    A3 = T3                                          # the caller's form (list, tuple, any array) goes to atomman as it is
     T3 = np.asarray(T3)
     flat = T3.reshape(-1, 3).astype(np.int64)
     amax = max(1, int(np.abs(flat).max()))
     tol = 16 * EPS * amax
     # vectors 3 -> 4
-    v4 = miller.vector3to4(T3)
+    v4 = miller.vector3to4(A3)
     require(isinstance(v4, np.ndarray) and v4.shape == T3.shape[:-1] + (4,), lambda: 'vector3to4 returned shape %r for input %r' % (np.shape(v4), T3.shape))
     exp4 = np.array([[float(x) for x in ref.v3to4(*t)] for t in flat.tolist()]).reshape(v4.shape)
     require(float(np.abs(v4 - exp4).max()) <= tol, lambda: 'vector3to4(%r) = %r, expected [(2u-v)/3,(2v-u)/3,-(u+v)/3,w] = %r' % (T3.tolist(), v4.tolist(), exp4.tolist()))
@@ -202,7 +248,7 @@ def _check_34(miller, T3, labels=None):
     q4 = miller.vector3to4(q3)
     require(float(np.abs(q4 - Q).max()) <= 3 * tol, lambda: 'vector3to4(vector4to3(q)) != q: q = %r, back = %r' % (Q.tolist(), q4.tolist()))
     # planes
-    p4 = miller.plane3to4(T3)
+    p4 = miller.plane3to4(A3)
     ep4 = np.array([ref.p3to4(*t) for t in flat.tolist()], dtype=float).reshape(T3.shape[:-1] + (4,))
     require(isinstance(p4, np.ndarray) and p4.shape == ep4.shape and float(np.abs(p4 - ep4).max()) == 0.0,
             lambda: 'plane3to4(%r) = %r, expected (h k -(h+k) l) = %r' % (T3.tolist(), np.asarray(p4).tolist(), ep4.tolist()))
@@ -311,16 +357,17 @@ def _membership(s, conv, what):
 
 
 def _check_centring_block(miller, s, T, integer):
+    A = T                                            # the caller's form goes to atomman as it is
     T = np.asarray(T)
     Tf = T.astype(float)
     amax = max(1.0, float(np.abs(Tf).max()))
     tol = 64 * EPS * amax
-    prim = miller.vector_conventional_to_primitive(T, setting=s)
+    prim = miller.vector_conventional_to_primitive(A, setting=s)
     require(isinstance(prim, np.ndarray) and prim.shape == T.shape, lambda: 'conventional_to_primitive returned shape %r for %r' % (np.shape(prim), T.shape))
     back = miller.vector_primitive_to_conventional(prim, setting=s)
     require(back.shape == T.shape and float(np.abs(back - Tf).max()) <= tol,
             lambda: 'setting %r: p2c(c2p(v)) != v for v = %r: got %r' % (s, T.tolist(), back.tolist()))
-    conv = miller.vector_primitive_to_conventional(T, setting=s)
+    conv = miller.vector_primitive_to_conventional(A, setting=s)
     require(isinstance(conv, np.ndarray) and conv.shape == T.shape, lambda: 'primitive_to_conventional returned shape %r for %r' % (np.shape(conv), T.shape))
     back2 = miller.vector_conventional_to_primitive(conv, setting=s)
     require(back2.shape == T.shape and float(np.abs(back2 - Tf).max()) <= tol,
@@ -423,6 +470,64 @@ def _hex_or_refusal(fn, arg, hexa, what):
     return out
 
 
+def _do_normal(miller, box, V, cond, hexa, idxl, uvwl, via, four, form, labels, vpert=0.0):
+    """plane normals of the integer block idxl (nested list) in the cell V held by box, judged against h a*+k b*+l c* and the
+    zone law for the lattice vectors uvwl; adds labels (among them 'refusal_nonhex' when a 4-index block is rightly refused)."""
+    idx = np.array(idxl, dtype=np.int64)
+    fn = box.plane_crystal_to_cartesian if via == 'box' else (lambda a: miller.plane_crystal_to_cartesian(a, box))
+    if four:
+        P4 = np.stack([idx[..., 0], idx[..., 1], -(idx[..., 0] + idx[..., 1]), idx[..., 2]], axis=-1).tolist()
+        arg = _arg(P4, form)
+        got = _hex_or_refusal(fn, arg, hexa, 'plane_crystal_to_cartesian')
+        _untouched(arg, P4, 'plane_crystal_to_cartesian')
+        labels.add('four')
+        if got is None:
+            labels.add('refusal_nonhex')
+            return None
+    else:
+        arg = _arg(idxl, form)
+        got = fn(arg)
+        _untouched(arg, idxl, 'plane_crystal_to_cartesian')
+    G, Gn = _judge_normals(got, idx, V, cond, 'plane_crystal_to_cartesian', vpert)
+    UVW = np.array(uvwl, dtype=np.int64)
+    vec = box.vector_crystal_to_cartesian(_arg(uvwl, form))
+    nzero, ntot = _judge_zone(vec, got, idx, UVW, V, Gn, cond, 'zone law', vpert)
+    if nzero:
+        labels.add('in_zone')
+    for t in idx.reshape(-1, 3).tolist():
+        labels.add(_branch(t))
+    return got
+
+
+def _do_vector(miller, box, V, hexa, idxl, via, four, form, den, labels, vpert=0.0):
+    idx = np.array(idxl, dtype=np.int64)
+    fn = box.vector_crystal_to_cartesian if via == 'box' else (lambda a: miller.vector_crystal_to_cartesian(a, box))
+    if four:
+        Q = np.stack([idx[..., 0], idx[..., 1], -(idx[..., 0] + idx[..., 1]), idx[..., 2]], axis=-1)
+        arg = (Q / den) if den != 1 else _arg(Q.tolist(), form)
+        got = _hex_or_refusal(fn, arg, hexa, 'vector_crystal_to_cartesian')
+        labels.add('four')
+        if got is None:
+            labels.add('refusal_nonhex')
+            return None
+        if den == 1:
+            _untouched(arg, Q.tolist(), 'vector_crystal_to_cartesian')
+        exp = ref.hex_cart_vector(Q.astype(float) / den, V)
+    else:
+        arg = (idx / den) if den != 1 else _arg(idxl, form)
+        got = fn(arg)
+        if den == 1:
+            _untouched(arg, idxl, 'vector_crystal_to_cartesian')
+        exp = (idx.astype(float) / den) @ V
+    got = np.asarray(got)
+    tol = _tolV(V, 4 * int(np.abs(idx).max()), vpert)
+    require(got.shape == idx.shape and float(np.abs(got - exp).max()) <= tol,
+            lambda: 'vector_crystal_to_cartesian(%r) = %r, expected %r (tol %.3g)' % (np.asarray(arg).tolist(), got.tolist(), exp.tolist(), tol))
+    if den != 1:
+        labels.add('fractional')
+    return got
+
+
 def oracle_random(case):
     am, miller = _am()
     op = case['op']
@@ -443,55 +548,25 @@ def oracle_random(case):
         nonorth = not ref.is_orthogonal_family(cell)
 
     if op == 'normal':
-        fn = box.plane_crystal_to_cartesian if case['via'] == 'box' else (lambda a: miller.plane_crystal_to_cartesian(a, box))
-        if case['four']:
-            P4 = np.stack([idx[..., 0], idx[..., 1], -(idx[..., 0] + idx[..., 1]), idx[..., 2]], axis=-1)
-            got = _hex_or_refusal(fn, _arg(P4.tolist(), case['form']), hexa, 'plane_crystal_to_cartesian')
-            labels.add('four')
-            if got is None:
-                return labels | {'refusal_nonhex'}
-        else:
-            got = fn(_arg(case['idx'], case['form']))
-        G, Gn = _judge_normals(got, idx, V, cond, 'plane_crystal_to_cartesian')
-        UVW = np.array(case['uvw'], dtype=np.int64)
-        vec = box.vector_crystal_to_cartesian(_arg(case['uvw'], case['form']))
-        nzero, ntot = _judge_zone(vec, got, idx, UVW, V, Gn, cond, 'zone law')
-        if nzero:
-            labels.add('in_zone')
-        for t in flat.tolist():
-            labels.add(_branch(t))
+        _do_normal(miller, box, V, cond, hexa, case['idx'], case['uvw'], case['via'], case['four'], case['form'], labels)
+        if 'refusal_nonhex' in labels:
+            return labels
         if mixed and nonorth:
             labels.add('nt')
         return labels
 
     if op == 'vector':
-        fn = box.vector_crystal_to_cartesian if case['via'] == 'box' else (lambda a: miller.vector_crystal_to_cartesian(a, box))
-        den = case['den']
-        vmax = float(np.abs(V).max())
-        if case['four']:
-            Q = np.stack([idx[..., 0], idx[..., 1], -(idx[..., 0] + idx[..., 1]), idx[..., 2]], axis=-1)
-            arg = (Q / den) if den != 1 else _arg(Q.tolist(), case['form'])
-            got = _hex_or_refusal(fn, arg, hexa, 'vector_crystal_to_cartesian')
-            labels.add('four')
-            if got is None:
-                return labels | {'refusal_nonhex'}
-            exp = ref.hex_cart_vector(Q.astype(float) / den, V)
-        else:
-            arg = (idx / den) if den != 1 else _arg(case['idx'], case['form'])
-            got = fn(arg)
-            exp = (idx.astype(float) / den) @ V
-        got = np.asarray(got)
-        tol = _tolV(V, 4 * int(np.abs(idx).max()))
-        require(got.shape == idx.shape and float(np.abs(got - exp).max()) <= tol,
-                lambda: 'vector_crystal_to_cartesian(%r) = %r, expected %r (tol %.3g)' % (np.asarray(arg).tolist(), got.tolist(), exp.tolist(), tol))
-        if den != 1:
-            labels.add('fractional')
+        _do_vector(miller, box, V, hexa, case['idx'], case['via'], case['four'], case['form'], case['den'], labels)
+        if 'refusal_nonhex' in labels:
+            return labels
         if mixed and nonorth:
             labels.add('nt')
         return labels
 
     if op == 'conv34':
-        v4, Q, p4 = _check_34(miller, _arg(case['idx'], case['form']))
+        arg = _arg(case['idx'], case['form'])
+        v4, Q, p4 = _check_34(miller, arg)
+        _untouched(arg, case['idx'], 'a 3<->4 index conversion')
         if case['bad']:
             _check_guards(miller, Q, case['bad'])
             labels.add('guard')
@@ -504,7 +579,9 @@ def oracle_random(case):
         labels.add('set_' + s)
         _check_centring_matrices(miller, s)
         if den == 1:
-            _check_centring_block(miller, s, _arg(case['idx'], case['form']), True)
+            arg = _arg(case['idx'], case['form'])
+            _check_centring_block(miller, s, arg, True)
+            _untouched(arg, case['idx'], 'a centring conversion')
         else:
             _check_centring_block(miller, s, idx / den, False)
             labels.add('fractional')
@@ -519,10 +596,12 @@ def oracle_random(case):
             A = np.stack([A[..., 0], A[..., 1], -(A[..., 0] + A[..., 1]), A[..., 2]], axis=-1)
             labels.add('four')
         key = K_REDUCE_2D if A.ndim == 3 else None
+        arg = _arg(A.tolist(), case['form'])
         try:
-            got = miller.reduce_indices(_arg(A.tolist(), case['form']))
+            got = miller.reduce_indices(arg)
         except ValueError as e:
             raise Violation('reduce_indices on an array of shape %r raised ValueError(%s)' % (A.shape, e), key)
+        _untouched(arg, A.tolist(), 'reduce_indices')
         exp = _judge_reduce(got, A, key)
         again = miller.reduce_indices(exp)
         require(np.array_equal(np.asarray(again), exp), lambda: 'reduce_indices is not idempotent on %r' % exp.tolist(), key)
@@ -613,6 +692,29 @@ def oracle_fuzz(case):
 _PRED = ('cubic', 'hexagonal', 'tetragonal', 'rhombohedral', 'orthorhombic', 'monoclinic', 'triclinic')
 
 
+def _judge_family(box, expected, via, descr):
+    """identifyfamily() names the family `expected` and exactly that is<family> predicate holds (expected None: the cell was
+    not made from family parameters; only consistency of the name with the predicates is asked).  descr: callable -> str"""
+    am, miller = _am()
+    from atomman.tools import crystalsystem as cs
+    with warnings.catch_warnings():
+        warnings.simplefilter('ignore')
+        if via == 'method':
+            name = box.identifyfamily()
+            preds = {f: bool(getattr(box, 'is' + f)()) for f in _PRED}
+        else:
+            name = cs.identifyfamily(box)
+            preds = {f: bool(getattr(cs, 'is' + f)(box)) for f in _PRED}
+    true = sorted(f for f, v in preds.items() if v)
+    if expected is None:
+        require(name is None or (name in _PRED and preds[name]), lambda: '%s: identifyfamily() = %r but predicates true for %r' % (descr(), name, true))
+        return name
+    require(name == expected, lambda: '%s: identifyfamily() = %r, expected %r (a,b,c,alpha,beta,gamma = %r)'
+            % (descr(), name, expected, [float(getattr(box, q)) for q in ('a', 'b', 'c', 'alpha', 'beta', 'gamma')]))
+    require(true == [expected], lambda: '%s: predicates true for %r, expected exactly [%r]' % (descr(), true, expected))
+    return name
+
+
 def oracle_family(case):
     am, miller = _am()
     from atomman.tools import crystalsystem as cs
@@ -624,24 +726,396 @@ def oracle_family(case):
         R = gens.rotation_matrix(*case['rot'])
         box = am.Box(vects=np.asarray(box.vects) @ R.T)
         labels.add('rotated')
-    with warnings.catch_warnings():
-        warnings.simplefilter('ignore')
-        if case['via'] == 'method':
-            name = box.identifyfamily()
-            preds = {f: bool(getattr(box, 'is' + f)()) for f in _PRED}
-        else:
-            name = cs.identifyfamily(box)
-            preds = {f: bool(getattr(cs, 'is' + f)(box)) for f in _PRED}
     labels.add('via_' + case['via'])
-    require(name == expected, lambda: 'Box.%s(%s)%s: identifyfamily() = %r, expected %r (a,b,c,alpha,beta,gamma = %r)'
-            % (ctor, ', '.join(repr(x) for x in p), ' rotated' if case['rot'] else '', name, expected,
-               [float(getattr(box, q)) for q in ('a', 'b', 'c', 'alpha', 'beta', 'gamma')]))
-    true = sorted(f for f, v in preds.items() if v)
-    require(true == [expected], lambda: 'Box.%s(%s)%s: predicates true for %r, expected exactly [%r]'
-            % (ctor, ', '.join(repr(x) for x in p), ' rotated' if case['rot'] else '', true, expected))
+    _judge_family(box, expected, case['via'],
+                  lambda: 'Box.%s(%s)%s' % (ctor, ', '.join(repr(x) for x in p), ' rotated' if case['rot'] else ''))
     if case['rot'] or expected in ('hexagonal', 'rhombohedral', 'monoclinic', 'triclinic'):
         labels.add('nt')
     return labels
+
+
+# ----------------------------------------------------------------------------- histories on one Box object
+
+_HOW_VECTS = ('vects_attr', 'set_vects', 'set_avect', 'model', 'model_json')
+_HOW_ALL = ('set_abc', 'set_lengths', 'set_hilo', 'vects_attr', 'set_vects', 'set_avect', 'model', 'model_json', 'set_abc', 'set_hilo')
+_READ = ('reciprocal_vects', 'a', 'alpha', 'volume', 'vects', 'b', 'is_lammps_norm', 'c', 'beta', 'gamma', 'avect', 'origin')
+# (lx, ly, lz, xy, xz, yz are documented to assert on a box that is not in the LAMMPS orientation: not read)
+_VPERT_ABC = 32 * EPS     # Box.set(a=...) builds xy, xz, yz, lz with other (equivalent) expressions than my cell_matrix
+
+
+def _cellV(cell):
+    if 'vects' in cell:
+        return np.array(cell['vects'], dtype=float)
+    return ref.cell_matrix(cell)
+
+
+def _vects_arg(V, form, cell):
+    """the 3x3 vectors in one of the array-like forms; whole-number cells go in as integers (list/tuple/int array)"""
+    whole = 'vects' in cell
+    if form in ('list', 'tuple'):
+        l = [list(r) for r in cell['vects']] if whole else V.tolist()
+        return l if form == 'list' else _tuplify(l)
+    a = np.array(cell['vects'], dtype=np.int64) if (whole and form == 'int') else np.array(V, dtype=float)
+    if form == 'fortran':
+        return np.asfortranarray(a)
+    if form == 'nc':
+        big = np.full((3, 6), 99.0)
+        big[:, ::2] = a
+        return big[:, ::2]
+    if form == 'ro':
+        a.setflags(write=False)
+    return a
+
+
+def _spoil(arg):
+    """after the call the caller re-uses its own array: the Box must have kept a copy"""
+    if isinstance(arg, np.ndarray) and arg.flags.writeable:
+        arg[...] = 7.25
+    elif isinstance(arg, list):
+        for r in arg:
+            if isinstance(r, list):
+                r[:] = [7.25] * len(r)
+            elif isinstance(r, np.ndarray) and r.flags.writeable:
+                r[...] = 7.25
+
+
+def _plan_mod(am, step):
+    """-> (route, payload, V, vpert, description).  route 'attr': box.vects = payload; 'set': box.set(**payload) /
+    System.box_set(**payload); 'model': box.model(model=payload).  V is MY matrix of the new cell."""
+    cell = step['cell']
+    V = _cellV(cell)
+    hows = _HOW_VECTS if (cell.get('rot') or 'vects' in cell) else _HOW_ALL
+    how = hows[step['how'] % len(hows)]
+    form, origin, omit = step['form'], step.get('origin'), step.get('omit')
+    if how == 'vects_attr':
+        return 'attr', _vects_arg(V, form, cell), V, 0.0, how
+    if how == 'set_vects':
+        kw = {'vects': _vects_arg(V, form, cell)}
+        if origin is not None:
+            kw['origin'] = list(origin)
+        return 'set', kw, V, 0.0, how
+    if how == 'set_avect':
+        A = _vects_arg(V, form, cell)
+        kw = {'avect': A[0], 'bvect': A[1], 'cvect': A[2]}
+        if origin is not None:
+            kw['origin'] = np.array(origin, dtype=float)
+        return 'set', kw, V, 0.0, how
+    if how in ('model', 'model_json'):
+        # the data model of another Box of that cell (Box.model() is trusted to write the vectors it holds: checked below
+        # through the vectors read back, never through the judged functions)
+        m = am.Box(vects=V, origin=(origin if origin is not None else [0.0, 0.0, 0.0])).model()
+        return 'model', (m.json() if how == 'model_json' else m), V, 0.0, how
+    a, b, c, al, be, ga = (float(x) for x in cell['abc'])
+    if how == 'set_abc':
+        kw = {'a': a, 'b': b, 'c': c}
+        for nm, x in (('alpha', al), ('beta', be), ('gamma', ga)):
+            if not (omit and x == 90.0):
+                kw[nm] = x
+        if origin is not None:
+            kw['origin'] = list(origin)
+        return 'set', kw, V, _VPERT_ABC, how
+    tilts = {'xy': float(V[1, 0]), 'xz': float(V[2, 0]), 'yz': float(V[2, 1])}
+    kw = {nm: x for nm, x in tilts.items() if not (omit and x == 0.0)}
+    if how == 'set_lengths':
+        kw.update(lx=float(V[0, 0]), ly=float(V[1, 1]), lz=float(V[2, 2]))
+        if origin is not None:
+            kw['origin'] = list(origin)
+        return 'set', kw, V, 0.0, how
+    o = [float(x) for x in (origin if origin is not None else [0.0, 0.0, 0.0])]
+    V = V.copy()
+    for i, nm in enumerate('xyz'):
+        hi = o[i] + float(V[i, i])
+        kw[nm + 'lo'], kw[nm + 'hi'] = o[i], hi
+        V[i, i] = hi - o[i]                              # what the documented lx = xhi - xlo gives in floating point
+    return 'set', kw, V, 0.0, how
+
+
+class _Held:
+    """one Box under test with my own record of its cell"""
+    def __init__(self, box, system, V, cell, vpert):
+        self.box, self.system = box, system
+        self.ver = 0
+        self.seen = {'normal': {}, 'vector': {}, 'family': {}}
+        self.fresh = True
+        self.put(V, cell, vpert, True)
+
+    def put(self, V, cell, vpert, changed):
+        self.V, self.cell, self.vpert = V, cell, vpert
+        self.cond = float(np.linalg.cond(V))
+        self.hexa = 'abc' in cell and ref.is_hexagonal_cell(cell)
+        self.fam = cell['family'] if 'abc' in cell else None
+        if changed:
+            self.ver += 1
+
+    def mark(self, kind, keys, labels):
+        seen = self.seen[kind]
+        for k in keys:
+            if k in seen and seen[k] < self.ver:
+                labels.add('requery_' + kind)
+            seen[k] = self.ver
+
+
+def _build_held(am, step, holder):
+    """a new Box of step['cell'] through one of the constructor routes (the same routes as the in-place changes)"""
+    route, payload, V, vpert, how = _plan_mod(am, step)
+    if route == 'attr':
+        box = am.Box()
+        box.vects = payload
+    elif route == 'model':
+        box = am.Box(model=payload)
+    else:
+        box = am.Box(**payload)
+        payload = list(payload.values())
+    _spoil(payload)
+    system = None
+    if holder == 'system':
+        system = am.System(atoms=am.Atoms(pos=[[0.125, 0.25, 0.375], [0.5, 0.625, 0.75]]), box=box, scale=True)
+        box = system.box
+    return _Held(box, system, V, step['cell'], vpert), 'Box<%s>' % how
+
+
+def _sel(planes, sel):
+    if sel == 0:
+        return list(planes)
+    out = [p for i, p in enumerate(planes) if (sel >> i) & 1]
+    return out or [planes[sel % len(planes)]]
+
+
+def _shaped(rows, shape, perm):
+    if shape == '0':
+        return rows[0]
+    if shape == 'MN':
+        return [rows] if perm % 2 == 0 else [[r] for r in rows]
+    return rows
+
+
+def _judge_read(h, perm):
+    box, V = h.box, h.V
+    rel = 4 * (_vfloor(V) + h.vpert) + 1e-12
+    n = len(_READ)
+    val = {}
+    for i in range(n):                                   # reading order: a rotation of _READ, backwards for odd perm
+        nm = _READ[(perm + (i if perm % 2 == 0 else -i)) % n]
+        v = getattr(box, nm)
+        val[nm] = v() if nm == 'is_lammps_norm' else v
+    R = np.asarray(val['reciprocal_vects'], dtype=float)
+    e = float(np.abs(R @ V.T - np.eye(3)).max())
+    require(R.shape == (3, 3) and e <= (rel + 64 * EPS) * h.cond * 3,
+            lambda: 'Box.reciprocal_vects %r is not the reciprocal basis of the cell %r (|R.V^T - 1| = %.3g)' % (R.tolist(), V.tolist(), e))
+    L = np.linalg.norm(V, axis=1)
+    for i, nm in enumerate('abc'):
+        require(abs(float(val[nm]) - L[i]) <= rel * L[i] * 4, lambda: 'Box.%s = %r, the cell has %r' % (nm, val[nm], L[i]))
+    for nm, (i, j) in (('alpha', (1, 2)), ('beta', (0, 2)), ('gamma', (0, 1))):
+        ang = math.degrees(math.acos(max(-1.0, min(1.0, float(V[i] @ V[j]) / (L[i] * L[j])))))
+        require(abs(float(val[nm]) - ang) <= 1e-6, lambda: 'Box.%s = %r, the cell has %r' % (nm, val[nm], ang))
+    vol = float(np.linalg.det(V))
+    require(abs(float(val['volume']) - vol) <= 16 * rel * vol * h.cond, lambda: 'Box.volume = %r, the cell has %r' % (val['volume'], vol))
+    got = np.asarray(val['vects'], dtype=float)
+    require(float(np.abs(got - V).max()) <= _tolV(V, 1, h.vpert), lambda: 'Box.vects = %r, the cell is %r' % (got.tolist(), V.tolist()))
+
+
+def _query_held(miller, h, q, planes, uvw, labels):
+    what = q['what']
+    labels.add('q_' + what)
+    if what == 'read':
+        _judge_read(h, q['perm'])
+        return
+    if what == 'family':
+        _judge_family(h.box, h.fam, 'method' if q['via'] == 'box' else 'function', lambda: 'the Box')
+        h.mark('family', ['f'], labels)
+        if h.fam is None:
+            labels.add('family_unasserted')
+        return
+    rows = _sel(planes, q['sel'])
+    four = q['four'] == 1 or (q['four'] == 2 and h.hexa)
+    if q['shape'] == '0':
+        rows = rows[:1]
+    idxl = _shaped(rows, q['shape'], q['perm'])
+    labels.add('form_' + q['form'])
+    if what == 'normal':
+        got = _do_normal(miller, h.box, h.V, h.cond, h.hexa, idxl, uvw, q['via'], four, q['form'], labels, h.vpert)
+    else:
+        got = _do_vector(miller, h.box, h.V, h.hexa, idxl, q['via'], four, q['form'], q['den'], labels, h.vpert)
+    if got is None:
+        return
+    h.mark(what, [tuple(r) for r in rows], labels)
+    if q['perm'] % 3 == 0 and isinstance(got, np.ndarray) and got.flags.writeable:
+        got[...] = 9.75                                  # the caller re-uses the result array
+        labels.add('result_overwritten')
+
+
+def _final_pass(miller, h, planes, uvw, labels):
+    lab = set()
+    _do_normal(miller, h.box, h.V, h.cond, h.hexa, [list(p) for p in planes], uvw, 'box', False, 'int', lab, h.vpert)
+    h.mark('normal', [tuple(r) for r in planes], labels)
+    _do_vector(miller, h.box, h.V, h.hexa, [list(p) for p in planes], 'box', False, 'int', 1, lab, h.vpert)
+    h.mark('vector', [tuple(r) for r in planes], labels)
+    _judge_family(h.box, h.fam, 'method', lambda: 'the Box')
+    h.mark('family', ['f'], labels)
+    labels.update(x for x in lab if x.startswith('br_'))
+
+
+def oracle_box_history(case):
+    am, miller = _am()
+    import copy
+    planes, uvw = case['planes'], case['uvw']
+    labels = {'holder_' + case['holder'], 'steps=%d' % min(len(case['steps']), 12)}
+    trail = []
+    others = []
+    try:
+        h, d = _build_held(am, {'cell': case['cell'], 'how': case.get('how0', 1), 'form': case['form0'], 'origin': None, 'omit': False},
+                           case['holder'])
+        trail.append(d)
+        nmod = 0
+        for stp in case['steps']:
+            k = stp['k']
+            if k == 'q':
+                trail.append('%s%s(%s)' % (stp['what'], {0: '', 1: '/4-index', 2: '/4-index if hexagonal'}[stp['four']] if stp['what'] in ('normal', 'vector') else '', stp['via']))
+                _query_held(miller, h, stp, planes, uvw, labels)
+            elif k == 'origin':
+                trail.append('origin')
+                if stp['via'] == 'box':
+                    h.box.origin = list(stp['o'])
+                else:
+                    h.box.set(origin=np.array(stp['o'], dtype=float))
+                labels.add('origin_only')
+            elif k == 'scribble':
+                trail.append('scribble')
+                v = h.box.vects
+                v[...] = 3.5
+                a = h.box.avect
+                a[...] = -1.5
+                o = h.box.origin
+                o[...] = 2.5
+                labels.add('scribble')
+            elif k == 'default':
+                trail.append('set()')
+                Vold = h.V
+                h.box.set()
+                h.put(np.eye(3), {'family': 'cubic', 'abc': [1.0, 1.0, 1.0, 90.0, 90.0, 90.0], 'rot': None}, 0.0, not np.array_equal(Vold, np.eye(3)))
+                labels.add('mod_default')
+                nmod += 1
+            elif k == 'new':
+                old = h
+                h, d = _build_held(am, {'cell': stp['cell'], 'how': stp.get('how', 1), 'form': stp['form'], 'origin': None, 'omit': False},
+                                   case['holder'])
+                # what was asked of the dropped object counts as asked before (an id-keyed memo would meet the id again)
+                for kind in h.seen:
+                    h.seen[kind] = {key: 0 for key in old.seen[kind]}
+                del old
+                trail.append('new ' + d)
+                labels.add('new_object')
+            elif k == 'copy':
+                trail.append('deepcopy')
+                old = h
+                if old.system is not None:
+                    sysc = copy.deepcopy(old.system)
+                    h = _Held(sysc.box, sysc, old.V, old.cell, old.vpert)
+                else:
+                    h = _Held(copy.deepcopy(old.box), None, old.V, old.cell, old.vpert)
+                h.ver = old.ver
+                h.seen = {kind: dict(d) for kind, d in old.seen.items()}
+                others.append(old)
+                labels.add('copy')
+            elif k == 'mod':
+                route, payload, V, vpert, how = _plan_mod(am, stp)
+                sysmode = stp['sys'] if h.system is not None else 0
+                trail.append(how + ('' if not sysmode else ('/box_set' if sysmode == 1 else '/box_set(scale)')))
+                tgt = h.system.box if sysmode else h.box
+                Vold = h.V
+                if route == 'attr':
+                    tgt.vects = payload
+                elif route == 'model':
+                    tgt.model(model=payload)
+                elif sysmode:
+                    h.system.box_set(scale=(sysmode == 2), **payload)
+                    payload = list(payload.values())
+                    labels.add('via_box_set')
+                else:
+                    h.box.set(**payload)
+                    payload = list(payload.values())
+                _spoil(payload)
+                changed = not np.array_equal(V, Vold)
+                hex_before = h.hexa
+                h.put(V, stp['cell'], vpert, changed)
+                labels.add('mod_' + how)
+                labels.add('changed' if changed else 'mod_same_cell')
+                if stp['cell'].get('rel'):
+                    labels.add('rel_' + stp['cell']['rel'])
+                if hex_before != h.hexa:
+                    labels.add('hex_toggled')
+                if stp['cell'].get('rot'):
+                    labels.add('rotated')
+                labels.add('fam_' + stp['cell']['family'])
+                nmod += 1
+            else:
+                raise ValueError('unknown step %r' % (stp,))
+        trail.append('final')
+        _final_pass(miller, h, planes, uvw, labels)
+        for o in others:
+            trail.append('final(original of the copy)')
+            _final_pass(miller, o, planes, uvw, set())
+    except Violation as e:
+        raise Violation('history [%s]: %s' % (' -> '.join(trail), e.detail), e.key)
+    if 'requery_normal' in labels and 'four' in labels:
+        labels.add('requery_with_four')
+    if labels & {'requery_normal', 'requery_vector'}:
+        labels.add('nt')
+    return labels
+
+
+# ----------------------------------------------------------------------------- histories of module-level calls
+
+_SUB = {'random': oracle_random, 'strings': oracle_strings, 'family': oracle_family}
+
+
+def oracle_call_history(case):
+    """every call is a complete case of another clause and is judged by that clause's oracle - when first made, and again
+    when all calls are repeated in another order (so each call is preceded by every other one at least once)"""
+    ops = case['ops']
+    n = len(ops)
+    labels = {'len=%d' % n, 'related' if case['related'] else 'mixed'}
+    first = []
+    order = list(range(n)) + [(case['order'] + i * (n - 1 if n > 2 and case['order'] % 2 else 1)) % n for i in range(n)]
+    # second round: a rotation (or, for odd 'order', a reversed rotation) of the first
+    done = []
+    for pos, i in enumerate(order):
+        kind, sub = ops[i]
+        try:
+            lab = _SUB[kind](sub)
+        except Violation as e:
+            raise Violation('call %d of the sequence [%s] (%s): %s' % (pos + 1, ', '.join(done), 'a repeat' if pos >= n else 'first time', e.detail), e.key)
+        done.append(_opname(kind, sub))
+        if pos < n:
+            first.append(lab)
+            labels.update(x for x in lab if x.startswith(('op_', 'form_', 'set_', 'fam_')) or x in ('four', 'refusal_nonhex', 'rotated', 'fractional'))
+            if kind != 'random':
+                labels.add('op_' + kind)
+    kinds = {_opname(k, s) for k, s in ops}
+    if len(kinds) > 1:
+        labels.add('several_kinds')
+    sets = [s.get('setting') for k, s in ops if k == 'random' and s['op'] == 'centering']
+    if len(set(sets)) > 1:
+        labels.add('settings_mixed')
+    if {'t1', 't2'} <= set(sets):
+        labels.add('t1_and_t2')
+    cells = [jd(s['cell']) for k, s in ops if k == 'random' and 'cell' in s]
+    if len(set(cells)) > 1:
+        labels.add('cells_mixed')
+    if any('nt' in l for l in first):
+        labels.add('nt')
+    return labels
+
+
+def _opname(kind, sub):
+    if kind != 'random':
+        return kind
+    return sub['op'] + ('/' + sub['setting'] if sub['op'] == 'centering' else '')
+
+
+def jd(x):
+    import json
+    return json.dumps(x, sort_keys=True)
 
 
 # ----------------------------------------------------------------------------- clauses
@@ -660,13 +1134,32 @@ CLAUSES = [
     Clause('reduce_exh', oracle_reduce_exh, enumerate=g16.enum_reduce,
            desc='EXHAUSTIVE, one case = one (h,k) row of triples and induced quadruples: reduce_indices = v/gcd (coprime, same sense), idempotent; '
                 'all_indices(maxindex, reduce) equals the set of all / all coprime non-zero triples'),
-    Clause('random', oracle_random, g16.random_cases, quick=20000, thorough=300000,
+    Clause('random', oracle_random, g16.random_cases, quick=16000, thorough=300000,
            min_share={'nt': 0.25, 'op_normal': 0.18, 'op_reduce': 0.08, 'shape_MN': 0.15, 'shape_0': 0.09, 'in_zone': 0.03,
                       'refusal_nonhex': 0.05, 'four': 0.1, 'form_list': 0.15, 'fam_monoclinic': 0.035, 'fam_rhombohedral': 0.035,
-                      'fam_triclinic': 0.08, 'fractional': 0.07},
+                      'fam_triclinic': 0.08, 'fractional': 0.07, 'form_tuple': 0.03, 'form_i32': 0.03, 'form_nc': 0.03,
+                      'form_fortran': 0.03, 'form_ro': 0.03, 'form_npscalars': 0.03},
            max_share={'refusal_nonhex': 0.25},
            desc='one operation per case (normal+zone law, vector, 3<->4, centring, reduce) on index arrays of leading shape (), (N,), (M,N), '
                 'indices up to 12, list/int/float input, random cells, 4-index input accepted exactly in hexagonal cells'),
+    Clause('box_history', oracle_box_history, g16.box_history_cases, quick=2500, thorough=60000,
+           min_share={'nt': 0.33, 'requery_normal': 0.28, 'requery_vector': 0.13, 'requery_family': 0.08, 'requery_with_four': 0.14,
+                      'changed': 0.33, 'hex_toggled': 0.17, 'holder_system': 0.22, 'via_box_set': 0.08, 'mod_set_abc': 0.1,
+                      'mod_vects_attr': 0.09, 'mod_set_vects': 0.065, 'mod_set_avect': 0.08, 'mod_model': 0.085, 'mod_model_json': 0.07,
+                      'mod_set_hilo': 0.04, 'mod_set_lengths': 0.03, 'mod_default': 0.055, 'copy': 0.055, 'new_object': 0.06,
+                      'rel_rotated_prev': 0.12, 'rel_same': 0.08, 'fam_intvects': 0.055, 'scribble': 0.075, 'origin_only': 0.15,
+                      'result_overwritten': 0.33, 'q_read': 0.14, 'q_family': 0.12, 'rotated': 0.2},
+           desc='HISTORY on one Box object (half of them held by a System): built through any constructor route, queried (normals + zone law, '
+                'vectors, family, derived attributes in varying order; 3- and 4-index, every input form), changed IN PLACE through every public route '
+                '(box.vects = ..., set(vects|avect..|a..|lx..|xlo..), model(), System.box_set with and without scale, set()), origin-only changes, '
+                'overwriting arrays handed in or out, deepcopy, replacement by a new object - and the SAME planes/vectors/family queried again: every '
+                'answer is judged against the cell as it is now'),
+    Clause('call_history', oracle_call_history, g16.call_history_cases, quick=1500, thorough=40000,
+           min_share={'nt': 0.38, 'related': 0.3, 'mixed': 0.13, 'several_kinds': 0.25, 'settings_mixed': 0.1, 't1_and_t2': 0.025,
+                      'cells_mixed': 0.12, 'op_centering': 0.19, 'op_normal': 0.17, 'op_strings': 0.075, 'op_family': 0.05},
+           desc='HISTORY of module-level calls in one process: 2-5 complete cases of the clauses random / strings / family (half of the sequences: '
+                'one index block through the same operation with another centring setting / the same lattice in another orientation / another '
+                'lattice in the same orientation / the identical call), each judged by its own oracle, then all repeated in another order'),
     Clause('strings', oracle_strings, g16.string_cases, quick=6000, thorough=100000,
            min_share={'nt': 0.4, 'fraction': 0.2, 'br_bare': 0.09, 'br_{': 0.09, 'n4': 0.18},
            desc='index strings of the documented grammar parse to fraction x the integers shown'),
